@@ -71,6 +71,7 @@ _VARS = {
   "FontSize": lambda m, u: ["L", str(_f(m, "v")), u[0]],
   "LineHeight": lambda m, u: ["L", str(_f(m, "v")), u[0]],
   "LinePadding": lambda m, u: ["L", str(_f(m, "v")), u[0]],
+  "Disparity": lambda m, u: ["L", str(_f(m, "v")), u[0]],
   "TextOutline": lambda m, u: ["TO", ["L", str(_f(m, "v")), u[0]], None],
   "RubyReserve": lambda m, u: ["RR", "both", ["L", str(_f(m, "v")), u[0]]],
   "TextShadow": lambda m, u: ["TS", [["S", ["L", str(_f(m, "x")), u[0]], ["L", str(_f(m, "y")), u[0]], ["L", str(_f(m, "b")), u[0]], None],
@@ -105,7 +106,7 @@ def processor(processor, unit, cell, px, model, wm=None, obligation="", **_):
   desc["cell"], desc["px"] = list(cell), list(px)
   units = unit.split(" ")
   value = _VARS[processor](model, units)
-  on_region = processor in ("Extent", "Origin", "Padding")
+  on_region = processor in ("Extent", "Origin", "Padding", "Disparity")
   target = roles["Region"] if on_region else (roles["P"] if processor in ("LineHeight", "LinePadding", "RubyReserve", "FontSize") else roles["Span"])
   if "fs" in model:
     R.add_style(target, "FontSize", ["L", str(_f(model, "fs")), "rh"])
